@@ -263,6 +263,9 @@ impl Ctx {
         // machine running at 10-20x load); the thorough tier is unaffected.
         const QUICK_FACTOR: &[(&str, u32)] = &[("C01", 10), ("C02", 10), ("C03", 7), ("C04", 10), ("C05", 10), ("C06", 10), ("C07", 10), ("C08", 10), ("C09", 10), ("C10", 3), ("C11", 10), ("C12", 7), ("C13", 10), ("C14", 2), ("C15", 8), ("C16", 4), ("C17", 4), ("C18", 10), ("C19", 10), ("C20", 10), ("C22", 7), ("C23", 7), ("C24", 6), ("C25", 6), ("C26", 3), ("C27", 9), ("C28", 10), ("C29", 10), ("C30", 5), ("C31", 10), ("C32", 10), ("C33", 10), ("C34", 10), ("C35", 10), ("C36", 10), ("C37", 7), ("C38", 8), ("C39", 5), ("C40", 10), ("C41", 10), ("C42", 10), ("C43", 10), ("C44", 5), ("C46", 7), ("C47", 10), ("C48", 10), ("C50", 3), ("C51", 10), ("C52", 10), ("C53", 10), ("C54", 10), ("C55", 10), ("C56", 8), ("C57", 10), ("C58", 10)];
         let qf = QUICK_FACTOR.iter().find(|(id, _)| *id == self.id).map(|(_, f)| *f).unwrap_or(1);
+        // Thorough tiers: x3 over the counts in the check modules, except the wall-clock bound checks.
+        let tf = if matches!(self.id.as_str(), "C03" | "C10" | "C45" | "C49") { 1 } else { 3 };
+        let thorough = thorough.saturating_mul(tf);
         let quick = quick.saturating_mul(qf).min(thorough.max(quick));
         let base = self.tier.sel(quick, thorough);
         match std::env::var("VERIF_SCALE").ok().and_then(|s| s.parse::<f64>().ok()) {
